@@ -61,6 +61,7 @@ type Spec struct {
 	RespawnKilled     bool   `json:"respawnKilled,omitempty"`    // on a child's OnKilled (while running) respawn it under the same name, once per name
 	RespawnAlways     bool   `json:"respawnAlways,omitempty"`    // with RespawnKilled: every time, not once per name
 	LateSpawn         int    `json:"lateSpawn,omitempty"`        // while terminating: on a child's OnKilled spawn a fresh child "lateN" (at most this many times)
+	KillSelfOnChild   bool   `json:"killSelfOnChild,omitempty"`  // on a child's OnKilled (a system message) kill itself immediately (another system message)
 	AskTimeout        int64  `json:"askTimeout,omitempty"`       // the actor's own default Ask timeout (ns), 0 = inherit the system's
 	FailDyingOnChild  int    `json:"failDyingOnChild,omitempty"` // panic on the first n OnKilled of children that arrive while this actor is itself terminating
 }
@@ -578,6 +579,9 @@ func (p *probe) receive(ctx vivid.ActorContext, beh string) {
 			if p.sh.spec.FailOnOwnKilled {
 				panic("verif: own OnKilled failure")
 			}
+		} else if p.sh.spec.KillSelfOnChild && !p.gotKill && strings.HasPrefix(rp, me+"/") {
+			w.call(p.name(ctx), "killself", 0, nil, "")
+			ctx.Kill(ctx.Ref(), false, "verif: my child died")
 		} else if p.sh.spec.LateSpawn > p.lateSpawned && p.gotKill && strings.HasPrefix(rp, me+"/") && !strings.Contains(rp[len(me)+1:], "/") {
 			// clean-up code that starts a helper while the actor is already being terminated
 			p.lateSpawned++
